@@ -317,7 +317,9 @@ impl Gen {
     pub fn next(&mut self, sim: &Sim) -> Step {
         let n = sim.reps.len();
         if sim.gid.is_none() {
-            return Step::Act { r: 0, cmds: vec![], fail_at: None, spill_fault: None };
+            // The creating action sometimes publishes more than the init command.
+            let cmds: Vec<ActCmd> = if self.wl.chance(1, 3) { (0..self.wl.range(1, 2)).map(|_| self.act_cmd(false)).collect() } else { vec![] };
+            return Step::Act { r: 0, cmds, fail_at: None, spill_fault: None };
         }
         let live: Vec<usize> = (0..n).filter(|r| !sim.crashed[*r]).collect();
         let with_graph: Vec<usize> = live.iter().copied().filter(|r| sim.has_graph(*r)).collect();
